@@ -43,6 +43,10 @@ CLAIMS = {
   "Deductive, over the abstract access view (real access types + ghost whole-variable/unconditional attributes): the real body of Directive.create_data_movement_deep_copy_refs is verified (loop invariant over the signatures) to put every non-scalar, non-structure variable in exactly one of copyin/copyout/copy such that: a variable whose incoming value can be read is in copyin or copy (outside the recorded known class), a modified one is in copyout or copy, copyin-only ones are not modified, copyout-only ones are written. Two known findings (open), both replayed through the real ACCDataTrans: partial first write then read => copyout only; partially written array => copyout.",
   "Assumed: the access view is what reference_accesses returns (C11 link), accessors as hooks, every access reads or writes. NOT under contract: the structure (derived-type) deep-copy branch, ACCDataDirective._update_data_movement_clauses and the tree-update signal that refreshes clauses (seeded change C13b is missed for this reason), ACCDataTrans.validate.",
   TECH + "; abstract access view with ghost attributes; run-time contract on the real ACCDataTrans for undecided obligations"),
+ "C17": ("proof",
+  "Deductive: (a) the real bodies of SymbolicMaths.never_equal and equal are verified against 'never equal only for an exact difference that is one non-zero integer constant' / 'equal only for a zero difference' (sympy class hierarchy declared, _subtract an assumed function); (b) one z3 obligation per operator and intrinsic of the translation tables the real SymPyWriter uses (executed closed code): for all integers the sympy reading of the written text equals the Fortran integer value. +,-,*,unary +/-, MIN, MAX are discharged; '/', negative '**' and MOD fail with counter-models and are recorded known findings, each replayed through the real SymbolicMaths.equal.",
+  "Assumed external contracts: sympy parse/simplify semantics; Fortran 2008 integer arithmetic as transcribed. NOT under contract: SymPyWriter name handling and type map (seeded change C17b missed), solve_equal_for, expand, sympy reader.",
+  TECH + "; z3 integer/real arithmetic obligations over executed translation tables"),
 }
 
 NA = {
